@@ -22,6 +22,11 @@ ABSENT_ID = "zz-no-such-id"
 ROW_SEPARATOR = "⣍"          # the only 8-dot cell written by the rule files themselves (Nemeth / Vietnam: start of a new table row)
 VARIANTS = ["bold", "italic", "bold-italic", "double-struck", "script", "bold-script", "fraktur", "bold-fraktur", "sans-serif",
             "bold-sans-serif", "sans-serif-italic", "sans-serif-bold-italic", "monospace", "normal"]
+# every menclose notation of MathML 3 (the shared textbook generator uses a subset)
+ALL_NOTATIONS = ["longdiv", "actuarial", "phasorangle", "radical", "box", "roundedbox", "circle", "left", "right", "top", "bottom",
+                 "updiagonalstrike", "downdiagonalstrike", "verticalstrike", "horizontalstrike", "northeastarrow", "madruwb",
+                 "uparrow", "downarrow", "leftarrow", "rightarrow", "northwestarrow", "southeastarrow", "southwestarrow",
+                 "updownarrow", "leftrightarrow", "updiagonalarrow", "downdiagonalarrow", "northeastsouthwestarrow", "northwestsoutheastarrow"]
 ELEMENTS_1 = ["mi", "mo", "mtext"]
 CHEM = ["H", "He", "Li", "C", "N", "O", "F", "Na", "Mg", "Al", "Si", "P", "S", "Cl", "K", "Ca", "Fe", "Cu", "Zn", "Ag", "Au", "Pb", "U"]
 
@@ -36,7 +41,14 @@ def is_marker(ch):
 
 
 def is_printable(ch):
-    return unicodedata.category(ch) not in ("Cc", "Cf", "Co", "Cn", "Cs", "Zl", "Zp")
+    """control, format, private-use, surrogate, line/paragraph separator characters and the Unicode noncharacters are not printable text.
+    A code point that is merely UNASSIGNED in the Unicode database shipped with Python is not judged: that database (14.0) is older than
+    the rule files (the mhchem equilibrium arrows U+1F8D2.. were assigned later), so 'unassigned' here proves nothing; such characters
+    are counted in the evidence."""
+    o = ord(ch)
+    if 0xFDD0 <= o <= 0xFDEF or (o & 0xFFFE) == 0xFFFE:
+        return False
+    return unicodedata.category(ch) not in ("Cc", "Cf", "Co", "Cs", "Zl", "Zp")
 
 
 class Facts:
@@ -62,7 +74,7 @@ class Facts:
                 self.row_breaks += max(0, len(rows) - 1)
             if not list(e) and e.text:
                 self.chars.update(e.text)
-            for a in ("open", "close", "separators"):
+            for a in ("open", "close", "separators", "lquote", "rquote"):
                 if e.get(a):
                     self.chars.update(e.get(a))
 
@@ -187,6 +199,10 @@ def judge_case(sess, tree, nav_id, styles, st=None, absent_id=ABSENT_ID):
             st.count("strings_judged")
             st.count("strings_judged_id_" + id_kind)
         s = r["v"]
+        if st is not None and B.CODES[code]["kind"] == "text":
+            for c in s:
+                if ord(c) > 0x2FFF and unicodedata.category(c) == "Cn":
+                    st.add("unassigned_in_python_ucd_not_judged", "U+%04X" % ord(c))
         for kind, leaked, detail in judge_string(code, defined, s, style, id_kind, facts, what):
             problems.append((kind, leaked, detail, style, id_kind))
         if op[0] == "get_braille" and visible and s == "":
@@ -225,11 +241,12 @@ def shape(t, depth=0):
         return "%s:%s%s" % (t.tag, cls, "[%s]" % mv if mv else "")
     keep = [k for k in sorted(t.attrs) if k in ("notation", "linethickness", "open", "close", "separators", "intent", "bevelled", "mathvariant")]
     attrs = "[" + ",".join("%s=%s" % (k, t.attrs[k]) for k in keep) + "]" if keep else ""
+    tag = "mrow" if t.tag in ("mstyle", "mpadded") and not attrs else t.tag       # plain grouping wrappers: which one the shrinker kept is chance
     if not t.kids:
-        return t.tag + attrs + "()"
+        return tag + attrs + "()"
     if depth > 8:
-        return t.tag + "(…)"
-    return t.tag + attrs + "(" + ",".join(shape(k, depth + 1) for k in t.kids) + ")"
+        return tag + "(…)"
+    return tag + attrs + "(" + ",".join(shape(k, depth + 1) for k in t.kids) + ")"
 
 
 def make_sig(kind, leaked, tree, cfg, style, id_kind):
@@ -484,13 +501,125 @@ def word_cases(sess, rng, n):
             tab = gen.N("mtable", [gen.N("mtr", [gen.N("mtd", [tok()]) for _ in range(cols)]) for _ in range(rows)])
             o, c = rng.choice([("(", ")"), ("[", "]"), ("{", ""), ("|", "|"), ("", "")])
             body = gen.mrow(*([gen.mo(o)] if o else []) + [tab] + ([gen.mo(c)] if c else [])) if (o or c) else tab
-        elif r < 0.8:
+        elif r < 0.74:
             body = chem()
+        elif r < 0.8:
+            inner = tok() if rng.random() < 0.6 else gen.mrow(tok(), gen.mo(rng.choice(["+", "=", "-"])), tok())
+            body = gen.N("menclose", [inner], notation=" ".join(rng.sample(ALL_NOTATIONS, rng.choice([1, 1, 1, 2]))))
         elif r < 0.9:
             body = gen.mrow(gen.mn(str(rng.randint(1, 999))), tok(), gen.mo(rng.choice(list("!?;.,%"))))
         else:
             body = gen.mrow(gen.mo("("), tok(), gen.mo(","), tok(), gen.mo(","), gen.mn(str(rng.randint(0, 99))), gen.mo(")"))
         out.append(gen.math(body))
+    return out
+
+
+# ---------------------------------------------------------------------------------------------
+# corpus: the inputs (never the expected outputs) of the repository's braille tests, mutated
+# ---------------------------------------------------------------------------------------------
+_EXPR_RX = re.compile(r'let\s+expr\s*=\s*(?:r(#*)"(.*?)"\1|"((?:\\.|[^"\\])*)")\s*;', re.S)
+_ENT_RX = re.compile(r"&([A-Za-z][A-Za-z0-9]*);")
+_CORPUS = {}
+
+
+def corpus(code=None):
+    """MathML inputs of tests/braille/<code>/*.rs (all codes when code is None) as gen.N trees -- the expressions the rule authors wrote
+    their rules for, so every rule of a rule file has an input that reaches it; read from the tree at run time"""
+    if code in _CORPUS:
+        return _CORPUS[code]
+    import glob
+    import html.entities
+    base = os.path.join(core.REPO, "tests", "braille")
+    files = sorted(glob.glob(os.path.join(base, code or "*", "*.rs")))
+    out, seen = [], set()
+    for f in files:
+        try:
+            src = open(f, encoding="utf-8").read()
+        except OSError:
+            continue
+        for m in _EXPR_RX.finditer(src):
+            xml = m.group(2) if m.group(2) is not None else re.sub(r'\\(.)', lambda k: {"n": "\n", "t": "\t"}.get(k.group(1), k.group(1)), m.group(3))
+            xml = _ENT_RX.sub(lambda k: k.group(0) if k.group(1) in ("lt", "gt", "amp", "quot", "apos") else html.entities.html5.get(k.group(1) + ";", k.group(0)), xml)
+            xml = xml.strip()
+            if xml in seen or not xml.startswith("<"):
+                continue
+            seen.add(xml)
+            try:
+                t = gen.from_xml(xml)
+            except Exception:
+                continue
+            if t.tag != "math":
+                t = gen.math(t)
+            for n, _ in t.walk():
+                if n.kids is None and n.text:
+                    n.text = n.text.strip() or n.text
+                n.attrs.pop("id", None)
+            out.append(t)
+    _CORPUS[code] = out
+    return out
+
+
+def mutate(tree, rng, sess):
+    """one small change that keeps the expression inside what the code's files cover: another typeface, another digit / letter of the
+    same kind, another menclose notation, an enclosure around a sub-expression"""
+    t = tree.copy()
+    nodes = [(n, p) for n, p in t.walk() if p]
+    tokens = [(n, p) for n, p in nodes if n.kids is None and n.tag in ("mi", "mn", "mo", "mtext") and n.text]
+    r = rng.random()
+    if r < 0.4 and tokens:
+        n, _ = rng.choice([x for x in tokens if x[0].tag != "mo"] or tokens)
+        n.attrs["mathvariant"] = rng.choice(VARIANTS)
+    elif r < 0.65 and tokens:
+        n, _ = rng.choice(tokens)
+        out = []
+        for ch in n.text:
+            if ch.isdigit() and ch.isascii():
+                out.append(rng.choice("0123456789"))
+            elif ch.isascii() and ch.isalpha() and len(n.text) == 1:
+                out.append(rng.choice("abcdefghijklmnopqrstuvwxyzABCDEFGHIJKLMNOPQRSTUVWXYZ"))
+            elif 0x3B1 <= ord(ch) <= 0x3C9 or 0x391 <= ord(ch) <= 0x3A9:
+                out.append(rng.choice("αβγδεζηθικλμνξοπρστυφχψωΓΔΘΛΞΠΣΦΨΩ"))
+            else:
+                out.append(ch)
+        n.text = "".join(out)
+    elif r < 0.8:
+        enc = [n for n, _ in nodes if n.tag == "menclose"]
+        if enc:
+            rng.choice(enc).attrs["notation"] = " ".join(rng.sample(ALL_NOTATIONS, rng.choice([1, 1, 2])))
+        elif tokens:
+            n, p = rng.choice(tokens)
+            t = shrink._replace_at(t, p, gen.N("menclose", [n.copy()], notation=rng.choice(ALL_NOTATIONS)))
+    else:
+        cands = [(n, p) for n, p in nodes if n.tag not in shrink.STRUCTURAL and n.tag not in ("mtable",) and len(p) >= 1]
+        if cands:
+            n, p = rng.choice(cands)
+            parent = t
+            for i in p[:-1]:
+                parent = parent.kids[i]
+            if parent.tag not in ("mtable", "mtr", "mlabeledtr", "mmultiscripts"):
+                t = shrink._replace_at(t, p, gen.N("menclose", [n.copy()], notation=rng.choice(ALL_NOTATIONS)))
+    return t
+
+
+def corpus_cases(sess, rng, tier, piece, pieces):
+    """own corpus of the code (every expression, plain and mutated) + a sample of the other codes' expressions"""
+    code = sess.cfg["code"]
+    own = corpus(code if os.path.isdir(os.path.join(core.REPO, "tests", "braille", code)) else None)
+    others = [t for t in corpus(None)]
+    out = []
+    k_mut = 2 if tier == "quick" else 8
+    for i, t in enumerate(own):
+        if i % pieces != piece:
+            continue
+        out.append(t.copy())
+        for _ in range(k_mut):
+            m = t
+            for _ in range(rng.choice([1, 1, 2])):
+                m = mutate(m, rng, sess)
+            out.append(m)
+    n_other = (len(others) // pieces) // (4 if tier == "quick" else 1)
+    for t in rng.sample(others, min(len(others), n_other)):
+        out.append(mutate(t, rng, sess) if rng.random() < 0.7 else t.copy())
     return out
 
 
@@ -510,6 +639,8 @@ def shard(spec):
                 trees = char_cases(sess, rng, tier, item["piece"], item["pieces"])
             elif item["part"] == "words":
                 trees = word_cases(sess, rng, item["n"])
+            elif item["part"] == "corpus":
+                trees = corpus_cases(sess, rng, tier, item["piece"], item["pieces"])
             else:
                 trees = None
             n = len(trees) if trees is not None else item["n"]
@@ -523,7 +654,7 @@ def shard(spec):
                     tree = gen.Textbook(rng, decimal=sess.decimal, max_depth=rng.choice([2, 3, 4]), p_ident=0.4).expression()[0]
                 ids = add_ids(tree)
                 nav_id = rng.choice(ids) if ids else None
-                styles = ["Off", rng.choice(STYLES[1:])] if tier == "quick" or item["part"] == "chars" else list(STYLES)
+                styles = ["Off", rng.choice(STYLES[1:])] if tier == "quick" or item["part"] in ("chars", "corpus") else list(STYLES)
                 rng.shuffle(styles)
                 absent_id = absent_variant(nav_id, rng)
                 problems, res = judge_case(sess, tree, nav_id, styles, st, absent_id)
@@ -639,6 +770,7 @@ def run(tier, seed):
         pieces = 4 if quick else 16
         for p in range(pieces):
             items.append({"cfg": cfg, "part": "chars", "piece": p, "pieces": pieces})
+            items.append({"cfg": cfg, "part": "corpus", "piece": p, "pieces": pieces})
     rng.shuffle(items)
     nsh = core.NPROC
     budget = 75 if quick else 1500
@@ -654,10 +786,13 @@ def run(tier, seed):
         ["a character is exempt only when it occurs in the canonical MathML of the input and is not a key of the selected code's unicode.yaml / unicode-full.yaml",
          "the only cell with dots 7-8 accepted without a navigation node is the row separator U+28CD, at most once per table-row break (it is written by the "
          "Nemeth and Vietnam rule files themselves and expected by the repository's tests)",
-         "text codes: printable = Unicode category not C*/Zl/Zp (Python unicodedata %s); marker = private use or mathematical alphanumeric" % unicodedata.unidata_version,
+         "text codes: printable = not control/format/private-use/surrogate/line-paragraph separator/noncharacter; code points unassigned in Python's "
+         "unicodedata %s are only counted (the database is older than the rule files); marker = private use or mathematical alphanumeric" % unicodedata.unidata_version,
          "errors/panics of get_braille and get_navigation_braille are counted, not judged here (C06, C08, C11)"],
         t0,
-        rule="(a) textbook expressions, (b) multi-character tokens built from the code's own characters (capitals, digit-letter mixes, Greek, roman numerals, typefaces, "
+        rule="(d) the MathML inputs of the repository's braille tests (inputs only), plain and with small mutations (typeface, digits/letters of the same kind, every "
+             "menclose notation, enclosures), own corpus of the code in full + a sample of the other codes'; "
+             "(a) textbook expressions, (b) multi-character tokens built from the code's own characters (capitals, digit-letter mixes, Greek, roman numerals, typefaces, "
              "chemistry, tables, text) and (c) every character that is a key of the code's own unicode.yaml / unicode-full.yaml as mi/mo/mtext(/mn) with and without "
              "mathvariant, alone and between an identifier and a number; each under BrailleNavHighlight Off + other styles with id \"\", an id of the expression and an "
              "absent id, plus get_navigation_braille; every returned string is scanned; non-trivial = set_mathml succeeded and the strings were judged; distinct by input",
